@@ -37,6 +37,7 @@ func anyToken(tag string, lens []int) string {
 var escapedTokens = []string{"~0", "~1", "~01", "service~0", "~1publicKey"}
 
 // quick bounds: the protected names' lengths, one-byte names/indices; thorough: every member-name length.
+var withLead = true
 var firstLens = []int{1, 7, 9}
 var nextLens = []int{1}
 
@@ -45,7 +46,7 @@ func anyPointer(tag string) string {
 	// RFC 6901 pointers are "" or start with "/"; the library ignores whatever precedes the first "/", so a
 	// junk byte in front is part of the domain
 	lead := ""
-	if verifrt.Choose(tag+"-lead", 2) == 1 {
+	if withLead && verifrt.Choose(tag+"-lead", 2) == 1 {
 		lead = verifrt.AnyStr(tag+"-lead-byte", 1)
 		verifrt.Assume(lead[0] != '/' && lead[0] != '~')
 	}
